@@ -736,6 +736,9 @@ mod response {
         /// before the rest of the body arrived, or if reading failed.
         /// The connection then can't be used for any more requests.
         pub async fn drain(&mut self) -> io::Result<()> {
+            // The body is discarded: a read after this gets nothing,
+            // instead of the bytes which follow the body on the connection.
+            self.content_length = 0;
             if self.unread == 0 {
                 return Ok(());
             }
